@@ -182,7 +182,12 @@ func ruleC02_2(c *Ctx, r *Rep) {
 }
 
 // dependsOnSubscriptionLookup: v derives from the terminal of a select on subscriptions owned by the same function.
-func dependsOnSubscriptionLookup(c *Ctx, s *Stmt, v ssa.Value) bool {
+func dependsOnSubscriptionLookup(c *Ctx, s *Stmt, v ssa.Value) (found bool) {
+	withBind(s, func() { found = dependsOnSubscriptionLookup0(c, s, v) })
+	return
+}
+
+func dependsOnSubscriptionLookup0(c *Ctx, s *Stmt, v ssa.Value) bool {
 	for _, q := range c.EntShape().Stmts {
 		if q.Table != "subscriptions" || q.Kind != "select" || c.Owner(q) != c.Owner(s) {
 			continue
